@@ -43,6 +43,7 @@ func VH_C19_closest() {
 	} else {
 		vNote("writer:writeClosestNTable")
 	}
+	vRaceDetect()
 	vSchedExplore(vParam("DEV"))
 	err := run(&vFailWriter{failAt: k})
 	vAssert("C19.closest.failed-write-is-reported", err != nil)
